@@ -109,6 +109,7 @@ let parse_op (toks : string list) : M.op =
 let parse_gop (toks : string list) : M.gop =
   match toks with
   | "SPRM" :: w :: d :: _ -> M.GSubParams (bi w, bi d)
+  | "BFEE" :: f :: _ -> M.GBetFee (zi f)
   | _ -> M.GUser (parse_op toks)
 
 (* GEN nacc balance supply t0 P betbatch betmin betfee obmax obbatch obthr hmindep hfee hmaxw
@@ -152,6 +153,7 @@ let dump (s : M.chain) (nacc : int) : string list =
     s.M.c_subs;
   add (cat ["SUBNEXT"; zs s.M.c_subnext]);
   add (cat ["SUBPRM"; (if s.M.c_sub_wager then "1" else "0"); (if s.M.c_sub_deposit then "1" else "0")]);
+  add (cat ["BFEEPRM"; zs s.M.c_prm.M.pr_bet_fee]);
   add (cat ["VAULT"; zl s.M.c_vault]);
   add (cat ["PCNT"; zs s.M.c_propcnt]);
   List.iter (fun (p : M.proposal) ->
